@@ -57,6 +57,7 @@ import (
 	"runtime/pprof"
 	"sort"
 	"strings"
+	"sync"
 	"time"
 
 	"github.com/LemoFoundationLtd/lemochain-core/chain/consensus"
@@ -73,6 +74,11 @@ import (
 )
 
 const ghostIdx = maxKeys // key index of the unknown key
+
+// The parent's time in this phase. Deliberately not a round number: 1600000000 s (the grid's parent)
+// minus its own thousandth is a multiple of every round length n*slot used here, which would make a
+// seconds-for-milliseconds mix-up in the miner land on the right slot grid by coincidence.
+const schedParentSec = uint32(1600000007)
 
 var keyPriv [maxKeys + 1]*ecdsa.PrivateKey
 
@@ -272,6 +278,39 @@ func (x *srun) violate(fp, what string, c schedCase) {
 	}
 	x.seenFP[fp] = true
 	x.r.Violate("C13/"+fp, what, c)
+	progress.Lock()
+	progress.viols = append(progress.viols, core.Violation{Fingerprint: "C13/" + fp, What: what, Replay: c})
+	progress.Unlock()
+}
+
+// progress is what the shard's watchdog needs to hand in a partial result when the thread that runs
+// the cases blocks inside the code under test (e.g. on one of the miner's unbuffered channels).
+var progress struct {
+	sync.Mutex
+	viols []core.Violation
+	item  string
+	at    time.Time
+	done  int
+}
+
+func watchdog(i, n int) {
+	for {
+		time.Sleep(5 * time.Second)
+		progress.Lock()
+		idle := time.Since(progress.at)
+		over := time.Since(core.Opt.Start) > core.Opt.Budget+90*time.Second
+		if idle < 4*time.Minute && !over {
+			progress.Unlock()
+			continue
+		}
+		// Not an oracle: the shard is reported as incomplete, with the violations it had found.
+		r := core.NewResult("C13", "exploration")
+		for _, v := range progress.viols {
+			r.Violate(v.Fingerprint, v.What, v.Replay)
+		}
+		r.NotExhaustive(fmt.Sprintf("schedule phase: shard %d/%d made no progress for %v inside {%s} after %d items (blocked in the code under test, or the machine is overloaded); partial result", i, n, idle.Round(time.Second), progress.item, progress.done))
+		core.WorkerDone(r)
+	}
 }
 
 // accepted: which of the offered miners VerifyMiner accepts for a header stamped sec seconds after
@@ -338,6 +377,23 @@ func fire(m *miner.Miner, idx int) (end int64, sent bool, pan interface{}) {
 	select {
 	case mi := <-m.VerifTimeToMineCh():
 		end, sent = mi.VerifEndOfMineWindow(), true
+		pan = <-done
+	case pan = <-done:
+	}
+	return
+}
+
+// startMiner runs Start(). When schedule fails Start calls Stop, which blocks until runMineLoop takes
+// the stop signal: the harness, playing the loop, takes it.
+func startMiner(m *miner.Miner) (stopped bool, pan interface{}) {
+	done := make(chan interface{}, 1)
+	go func() {
+		defer func() { done <- recover() }()
+		m.Start()
+	}()
+	select {
+	case <-m.VerifStopCh():
+		stopped = true
 		pan = <-done
 	case pan = <-done:
 	}
@@ -440,8 +496,8 @@ func runSchedItem(it schedItem, r *core.Result, onlyParent, onlySelf int, cnt ma
 	tableLen := int64(4*n)*(slot/1000) + 3
 	views := make([]*pview, len(w.parents))
 	for pi, k := range w.parents {
-		hd := &types.Header{Height: h - 1, Time: parentSec, MinerAddress: addrOf(k)}
-		pv := &pview{idx: pi, kind: "deputy", hdr: hd, blk: &types.Block{Header: hd}, P: int64(parentSec) * 1000, far: map[int64]int{}}
+		hd := &types.Header{Height: h - 1, Time: schedParentSec, MinerAddress: addrOf(k)}
+		pv := &pview{idx: pi, kind: "deputy", hdr: hd, blk: &types.Block{Header: hd}, P: int64(schedParentSec) * 1000, far: map[int64]int{}}
 		if pi >= n {
 			pv.kind = "non-deputy"
 		}
@@ -650,17 +706,17 @@ func (x *srun) s2(views []*pview, pv *pview, di int, ivs, offs []int64, cfg func
 				vtask.Reset()
 				cnt["evaluations"]++
 				cnt["life_cases"]++
-				if di >= 0 {
-					// Start() calls Stop() when schedule fails, and Stop blocks without the loop goroutine;
-					// S1 reports a refused deputy, here the case is skipped
-					addr, isDep := w.dm.GetMyMinerAddress(h)
-					if _, err := w.dm.GetMinerDistance(h, pv.hdr.MinerAddress, addr); !isDep || err != nil {
-						cnt["life_skipped_start_would_fail"]++
-						continue
-					}
-				}
-				m.Start()
+				stopped, pan := startMiner(m)
 				subscribe.ClearSub()
+				if pan != nil {
+					panic(pan)
+				}
+				if stopped {
+					cnt["life_start_gave_up"]++
+					x.violate(fmt.Sprintf("sched/start/gave-up/%s/self=%s/parent=%s", x.hc, w.sName[cur.Self], pv.kind),
+						fmt.Sprintf("h=%d term sizes %v DeputyCount=%d parent#%d(%s) node %s (rank %d): Start() found schedule failing and stopped the miner", h, x.it.Sizes, x.it.Count, pv.idx, w.pName[pv.idx], w.sName[cur.Self], di), *cur)
+					break
+				}
 				pend := vtask.Pending()
 				if di < 0 {
 					cnt["life_start_not_deputy"]++
@@ -855,6 +911,8 @@ func schedWorker(i, n int) {
 	out := map[string]bool{}
 	items := schedItems()
 	skipped := 0
+	progress.at = time.Now()
+	go watchdog(i, n)
 	// cheapest first, dealt round-robin; the expensive tail is dealt in reverse so that the shards even out
 	for k, it := range items {
 		round, pos := k/n, k%n
@@ -869,7 +927,13 @@ func schedWorker(i, n int) {
 			continue
 		}
 		core.Journal(fmt.Sprintf("sched item %+v", it))
+		progress.Lock()
+		progress.item, progress.at = fmt.Sprintf("%+v", it), time.Now()
+		progress.Unlock()
 		runSchedItem(it, r, -1, -1, cnt, out)
+		progress.Lock()
+		progress.done++
+		progress.Unlock()
 	}
 	if skipped > 0 {
 		r.NotExhaustive(fmt.Sprintf("schedule phase: shard %d/%d skipped %d items at the internal deadline", i, n, skipped))
@@ -881,6 +945,7 @@ func schedWorker(i, n int) {
 		r.Outcome(k)
 	}
 	pprof.StopCPUProfile()
+	progress.Lock() // the watchdog must not write a second result
 	core.WorkerDone(r)
 }
 
